@@ -19,7 +19,10 @@ Inductive scase :=
        (ntbl : list (query * bool * list nat * N))
        (o : obs)
 (* server clause: proofs of the answer records, request AD / CD / DO; observed AD, SERVFAIL?, all answers kept? *)
-| CaseSrv (ps : list N) (ad cd do_ : bool) (oad osf okeep : N).
+| CaseSrv (ps : list N) (ad cd do_ : bool) (oad osf okeep : N)
+(* self-referential input (validation loop up to the depth backstop): verdicts there depend on the
+   nesting depth and the unmodelled validation cache picks one; no correspondence claim *)
+| CaseLoop.
 
 (* transport form written by the harness: the same data as a stream of numbers (one byte if
    < 255, else 255 followed by 4 bytes big-endian), packed; list = length then elements;
@@ -90,9 +93,10 @@ Definition pcase : P scase :=
     (an <- plist pnum ;; nw <- pnum ;; q <- pquery ;;
      tb <- plist (k <- pquery ;; r <- pureply ;; pret (k, r)) ;;
      nt <- plist pnentry ;; o <- pobs ;; pret (Case an nw q tb nt o))
-  else
+  else if tag =? 1 then
     (ps <- plist pnum ;; ad <- pbool ;; cd <- pbool ;; d <- pbool ;;
-     oa <- pnum ;; os <- pnum ;; ok <- pnum ;; pret (CaseSrv ps ad cd d oa os ok)).
+     oa <- pnum ;; os <- pnum ;; ok <- pnum ;; pret (CaseSrv ps ad cd d oa os ok))
+  else pret CaseLoop.
 Definition decode (c : case) : option scase :=
   match c with CaseP p => match pcase (nums (unpack p)) with Some (s, []) => Some s | _ => None end end.
 
@@ -116,6 +120,7 @@ Definition MAXD : nat := 26.   (* DnsRequestOptions::default().max_request_depth
 Definition run (c : scase) : vres :=
   match c with
   | CaseSrv _ _ _ _ _ _ _ => VErr
+  | CaseLoop => VErr
   | Case anchors now q tbl ntbl _ =>
       validate (tbl_lookup tbl) anchors now MAXD
                (fun q _ _ _ pos => ntbl_lookup ntbl q false pos)
@@ -151,6 +156,7 @@ Definition check_s (c : scase) : bool :=
   | CaseSrv ps ad cd d oa os ok =>
       let '(a, sf, keep) := server_map (map pdecode ps) ad cd d in
       (b2n a =? oa) && (b2n sf =? os) && (b2n (keep || match ps with [] => true | _ => false end) =? ok)
+  | CaseLoop => true
   end.
 Definition check (c : case) : bool := match decode c with Some s => check_s s | None => false end.
 
